@@ -75,6 +75,27 @@ def verify_one(job):
             res['obligations'].append(d)
     except sym.Unsupported as e:
         res['unsupported'] = str(e)
+        # the code is outside what the generator can execute (e.g. after a
+        # rewrite the contract's loop specs no longer fit): no proof.  If
+        # the contract carries a sampler and an executable spec function,
+        # a bounded native search may still REFUTE the contract.
+        try:
+            c = T.get(qual)
+            if getattr(c, 'sampler', None) is not None:
+                from pyvc import replay
+                sr = replay.search_function(ex, c, qual, {},
+                                            seed=opts.get('seed', 0))
+                if sr.get('status') == 'reproduced':
+                    res['unsupported'] = None
+                    res['obligations'].append({
+                        'name': '%s:post:contract-refuted-natively' % qual,
+                        'kind': 'proof', 'status': 'sat',
+                        'backend': 'no VC (%s); failing input found by '
+                        'bounded native search' % str(e)[:120],
+                        'time': 0.0, 'line': 0, 'note': '', 'model': {},
+                        'replay': sr})
+        except Exception:      # noqa
+            pass
     except Exception as e:
         res['error'] = ''.join(traceback.format_exception(
             type(e), e, e.__traceback__))[-3000:]
